@@ -265,6 +265,10 @@ func VerifHarness_C28_RewardWindow() {
 		return
 	}
 	verifAssert("C28:reward-recomputed-exactly-in-the-update-window", updated == inWindow)
+	if inWindow {
+		_, _, _, last, _ := bc.appDB.GetPrice()
+		verifAssert("C28:state-reward-is-the-recomputed-one", reward.Cmp(last) == 0)
+	}
 	if !inWindow {
 		verifAssert("C28:reward-unchanged-outside-the-window", reward.Cmp(big.NewInt(777)) == 0 && safe.Cmp(big.NewInt(888)) == 0)
 	}
